@@ -1,10 +1,11 @@
 #!/bin/bash
-# evaluates every seeded change found under /tmp/seed/<ID>/{A,B} (or a given list) with its own property's check
+# evaluates every seeded change found under $SEED_ROOT (default /tmp/seed)/<ID>/{A,B} (or a given list) with its own property's check
 # usage: tools/seed_all.sh [ID ...]      results -> <dir>/result.json
 cd "$(dirname "$0")/.."
-ids=${@:-$(ls -d /tmp/seed/C?? | xargs -n1 basename)}
+ROOT=${SEED_ROOT:-/tmp/seed}
+ids=${@:-$(ls -d $ROOT/C?? | xargs -n1 basename)}
 for id in $ids; do for x in A B; do
-  d=/tmp/seed/$id/$x
+  d=$ROOT/$id/$x
   [ -f $d/patch.diff ] || continue
   [ -s $d/result.json ] && continue
   /venv/bin/python tools/seedcheck.py $d --props $id > $d/result.json 2> $d/err.txt
